@@ -100,7 +100,7 @@ def suzuki(terms, order, t):
     return out + suzuki(terms, order - 2, (1 - 4 * p) * t) + out
 
 
-def h_qubit_op(env, words, nq, order, steps, control, time_mode, use_trotterize, ident, canary=False, pi_multiples=None):
+def h_qubit_op(env, words, nq, order, steps, control, time_mode, use_trotterize, ident, canary=False, pi_multiples=None, pauli_order=False):
     from tangelo.toolboxes.operators import QubitOperator
     from tangelo.toolboxes.ansatz_generator.ansatz_utils import trotterize, get_exponentiated_qubit_operator_circuit
     if pi_multiples is not None:
@@ -129,6 +129,14 @@ def h_qubit_op(env, words, nq, order, steps, control, time_mode, use_trotterize,
         time = dict(times)
     if use_trotterize:
         circ, phase = trotterize(op, time=time, n_trotter_steps=steps, trotter_order=order, control=control, return_phase=True)
+    elif pauli_order:
+        # user-chosen term order, the SAME list object handed in twice: the second call is the same circuit, the list is untouched
+        steps = 1
+        po = [(w, op.terms[w]) for w in reversed(list(op.terms))]
+        keep = list(po)
+        get_exponentiated_qubit_operator_circuit(op, time=time, trotter_order=order, control=control, return_phase=True, pauli_order=po)
+        circ, phase = get_exponentiated_qubit_operator_circuit(op, time=time, trotter_order=order, control=control, return_phase=True, pauli_order=po)
+        env.check_true(len(po) == len(keep) and all(a[0] == b[0] and a[1] is b[1] for a, b in zip(po, keep)), "the pauli_order list passed in is unchanged")
     else:
         steps = 1
         circ, phase = get_exponentiated_qubit_operator_circuit(op, time=time, trotter_order=order, control=control, return_phase=True)
@@ -137,7 +145,7 @@ def h_qubit_op(env, words, nq, order, steps, control, time_mode, use_trotterize,
     U = [[phase * x for x in col] for col in U]
     # oracle: per step, Suzuki sequence over ALL terms in the operator's own term order, identity included
     seq = []
-    items = [(w, op.terms[w] * times[w]) for w in op.terms]     # (word, c_j * t_j)
+    items = [(w, op.terms[w] * times[w]) for w in (reversed(list(op.terms)) if pauli_order else op.terms)]     # (word, c_j * t_j)
     one = suzuki([(w, a) for w, a in items], order, R.C(1) / steps)
     if canary:
         one = one[::-1] if len(one) > 1 and order == 1 else [(w, -a) for w, a in one]
@@ -323,6 +331,10 @@ def shapes(tier, seed):
         out.append(Shape(f"unitary/Z0+X2-gap/o1s1/n1/ctl={c}/{m_}", h_unitary,
                          dict(words=[((0, "Z"),), ((2, "X"),)], nq=3 + (c is not None), order=1, steps=1, n_steps=1, control=c, method=m_, via_default=True),
                          modules=MODS + ("tangelo.toolboxes.unitary_generator.trotter_suzuki",)))
+    for tm_, o_, c_ in (("dict", 1, None), ("dict", 2, 2), ("scalar", 2, None)):
+        out.append(Shape(f"qubitop/X0X1+Z0/pauli_order/o{o_}/ctl={c_}/{tm_}", h_qubit_op,
+                         dict(words=[((0, "X"), (1, "X")), ((0, "Z"),)], nq=2 + (c_ is not None), order=o_, steps=1, control=c_, time_mode=tm_,
+                              use_trotterize=False, ident=True, pauli_order=True), modules=MODS))
     out.append(Shape("canary/qubitop/sign", h_qubit_op, dict(words=[((0, "X"), (1, "X")), ((0, "Z"),)], nq=2, order=1, steps=1,
                                                             control=None, time_mode="scalar", use_trotterize=True, ident=False, canary=True),
                      modules=MODS, canary=True))
